@@ -21,6 +21,9 @@ def run(chk):
     r14d(chk)
     r14h(chk)
     r14i(chk)
+    from .c13 import eval_validate
+
+    eval_validate(chk, 'R14.d')
     from .c13 import r13a, r13c
 
     r13c(chk, 'R14.e')
